@@ -11,7 +11,7 @@ class C12(TieCheck):
     harness = "c12"
     extra_trust = [
         "model: coq/C12/Context.v (cTx with every field, reset/resetNil/resetWithWriter, ServeHTTP and Lookup branch "
-        "assignments, getters, Clone, CloneWith, copyWithResize, embedded recorder) over an explicit heap; coq/C12/Ops.v "
+        "assignments, getters (Params and, separately, Param(name)), Clone, CloneWith, copyWithResize, embedded recorder) over an explicit heap; coq/C12/Ops.v "
         "(histories); spec: coq/C12/Spec.v (the view derived from the current request only)",
         "which model of Clone is compared (after / before commit 036e194) is selected by the harness from what the "
         "regression witness shows on the tree under test; on a pre-fix tree the witness then fails the specification",
